@@ -240,6 +240,9 @@ func c14() []*Ob {
 		{Prop: "C14", ID: "C14.6", Engine: "DOM(evidence)", Floor: 2,
 			Desc:  "the LID-border predicate of a sealed fraction answers 'less or equal' only on evidence about that very position: sealedIDsIndex.LessOrEqual returns the constant true only when the lid is beyond the table, when the PREVIOUS block's minimum is already <= id (seq.LessOrEqual over MinBlockIDs[blockIndex-1]), or after comparing the position's own MID (GetMID(lid)) with id.MID — a shortcut taken from anything else makes the predicate non-monotone and the binary search of getLIDsBorders cuts documents of the requested range",
 			Check: func(c *Ctx) { lessOrEqualEvidence(c) }},
+		{Prop: "C14", ID: "C14.8", Engine: "PAIR(accumulators)", Floor: 3,
+			Desc:  "the time borders of a fraction are true extrema: wherever a lower/upper border pair is kept as running minimum and maximum (metaDataCollector.MinMID/MaxMID in AppendMeta and in the duplicate filter, Info.From/To in Active.UpdateStats), each border is updated from its own old value and the candidate alone — under a comparison of the candidate with that border in the right direction, or by the min/max builtin of that name — and neither its new value nor the decision to update it depends on the other border (an upper border computed from the lower one, or updated only when the lower one was not, stays below the newest document: the fraction is pruned for ranges it has documents in, and sealing freezes the wrong border)",
+			Check: func(c *Ctx) { runningExtrema(c) }},
 		{Prop: "C14", ID: "C14.7", Engine: "PAIR", Floor: 1,
 			Desc:  "fractions are cut off by their time borders only in the order those borders were sorted in: List.Sort orders by the border (To for descending, From for ascending) that calcEnsuredIDsCount uses to declare the remaining fractions irrelevant (shared rule with C05.2 — with the wrong key a fraction whose range encloses the others is skipped although it holds older documents of the requested range)",
 			Check: func(c *Ctx) { sortKeyIsCutKey(c) }},
@@ -490,6 +493,108 @@ func lessOrEqualEvidence(c *Ctx) {
 			c.Site(ret.Pos(), "returns true because %s", why)
 		} else {
 			c.Violation("dom:sealedIDsIndex.LessOrEqual:true-without-evidence", ret.Pos(), "sealedIDsIndex.LessOrEqual answers true without the lid being out of range, the previous block's minimum being <= id, or the position's own MID having been compared with id.MID: the predicate is not monotone over the descending id table and getLIDsBorders cuts the LID window in the wrong place (documents of the requested time range disappear, or others appear)")
+		}
+	}
+}
+
+// runningExtrema: rule body of C14.8, shared with C05.
+func runningExtrema(c *Ctx) {
+	type pair struct{ typ, lo, hi string }
+	for _, pr := range []pair{{"frac.metaDataCollector", "MinMID", "MaxMID"}, {"frac.Info", "From", "To"}} {
+		for _, fn := range c.P.Funcs {
+			if !c.P.InRepo(fn) || fn.Blocks == nil {
+				continue
+			}
+			for _, side := range []struct {
+				own, other string
+				isMax      bool
+			}{{pr.lo, pr.hi, false}, {pr.hi, pr.lo, true}} {
+				isOwn := func(v ssa.Value) bool { return ValueIsField(v, pr.typ, side.own) }
+				isOther := func(v ssa.Value) bool { return ValueIsField(v, pr.typ, side.other) }
+				// an accumulator: the function reads one of the borders it maintains (a plain copy or an initialisation reads neither)
+				if len(InstrsIn(fn, FieldLoad(pr.typ, side.own))) == 0 && len(InstrsIn(fn, FieldLoad(pr.typ, side.other))) == 0 {
+					continue
+				}
+				for _, in := range InstrsIn(fn, FieldStore(pr.typ, side.own)) {
+					st := in.(*ssa.Store)
+					if _, isConst := st.Val.(*ssa.Const); isConst {
+						continue
+					}
+					name := FuncName(fn) + ":" + side.own
+					if DerivesFrom(st.Val, isOther) {
+						c.Violation("pair:extrema:from-other:"+name, st.Pos(), "%s stores into %s a value computed from %s: the two borders are independent extrema", FuncName(fn), side.own, side.other)
+						continue
+					}
+					dependsOnOther := false
+					for _, f := range FactsAtInstr(st) {
+						if DerivesFrom(f.Cond, isOther) {
+							dependsOnOther = true
+						}
+					}
+					if dependsOnOther {
+						c.Violation("pair:extrema:guarded-by-other:"+name, st.Pos(), "%s updates %s only depending on a comparison with %s (an else-branch of the other border's update): a document that moves one border is never considered for the other", FuncName(fn), side.own, side.other)
+						continue
+					}
+					ok := false
+					if cl, isCall := st.Val.(*ssa.Call); isCall {
+						want := "builtin.min"
+						if side.isMax {
+							want = "builtin.max"
+						}
+						if CallName(cl) == want {
+							for _, a := range cl.Call.Args {
+								if DerivesFrom(a, isOwn) {
+									ok = true
+								}
+							}
+						}
+					}
+					for _, f := range FactsAtInstr(st) {
+						bo, isBo := f.Cond.(*ssa.BinOp)
+						if !isBo {
+							continue
+						}
+						// normalise to  candidate OP own
+						op, x, y := bo.Op, bo.X, bo.Y
+						if isOwn(x) && SameValue(y, st.Val) {
+							x, y = y, x
+							switch op {
+							case token.LSS:
+								op = token.GTR
+							case token.LEQ:
+								op = token.GEQ
+							case token.GTR:
+								op = token.LSS
+							case token.GEQ:
+								op = token.LEQ
+							}
+						}
+						if !(isOwn(y) && SameValue(x, st.Val)) {
+							continue
+						}
+						if !f.Val {
+							switch op {
+							case token.LSS:
+								op = token.GEQ
+							case token.LEQ:
+								op = token.GTR
+							case token.GTR:
+								op = token.LEQ
+							case token.GEQ:
+								op = token.LSS
+							}
+						}
+						if side.isMax && (op == token.GTR || op == token.GEQ) || !side.isMax && (op == token.LSS || op == token.LEQ) {
+							ok = true
+						}
+					}
+					if ok {
+						c.Site(st.Pos(), "%s: %s is a running extremum of its own", FuncName(fn), side.own)
+					} else {
+						c.Violation("pair:extrema:direction:"+name, st.Pos(), "%s stores a candidate into %s without having compared it with %s in the direction of a %s", FuncName(fn), side.own, side.own, map[bool]string{true: "maximum", false: "minimum"}[side.isMax])
+					}
+				}
+			}
 		}
 	}
 }
